@@ -3,6 +3,7 @@ mod common;
 mod sw;
 mod te;
 
+use ark_ec::hashing::curve_maps::wb::WBConfig;
 use ark_ec::short_weierstrass::SWCurveConfig;
 use ark_ec::twisted_edwards::TECurveConfig;
 use ark_ff::PrimeField;
@@ -163,6 +164,14 @@ fn relations(tier: Tier) -> Vec<Rel> {
     sw_rels::<ark_bls12_377::g1::Config>(&mut out, "bls12_377.G1", tier, 4, Doc::Int(BLS12_377_X_MINUS_1, "x-1"));
     sw_rels::<ark_bn254::g1::Config>(&mut out, "bn254.G1", tier, 4, Doc::Cofactor);
     sw_rels::<ark_ed_on_bls12_381::JubjubConfig>(&mut out, "ed_on_bls12_381.SW", tier, 4, Doc::Cofactor);
+    // the SWU-isogenous helper curves (reached through WBConfig::IsogenousCurve): same group order as their targets,
+    // their own COFACTOR / COFACTOR_INV / generator constants
+    sw_rels::<<ark_bls12_381::g1::Config as WBConfig>::IsogenousCurve>(&mut out, "bls12_381.G1.iso", tier, 2, Doc::Cofactor);
+    sw_rels::<<ark_bls12_381::g2::Config as WBConfig>::IsogenousCurve>(&mut out, "bls12_381.G2.iso", tier, 1, Doc::Cofactor);
+    sw_rels::<<ark_bls12_377::g1::Config as WBConfig>::IsogenousCurve>(&mut out, "bls12_377.G1.iso", tier, 2, Doc::Cofactor);
+    sw_rels::<<ark_bls12_377::g2::Config as WBConfig>::IsogenousCurve>(&mut out, "bls12_377.G2.iso", tier, 1, Doc::Cofactor);
+    sw_rels::<<ark_test_curves::bls12_381::g1::Config as WBConfig>::IsogenousCurve>(&mut out, "test.bls12_381.G1.iso", tier, 2, Doc::Cofactor);
+    sw_rels::<<ark_test_curves::bls12_381::g2::Config as WBConfig>::IsogenousCurve>(&mut out, "test.bls12_381.G2.iso", tier, 1, Doc::Cofactor);
     sw_rels::<ark_ed_on_bls12_381_bandersnatch::BandersnatchConfig>(&mut out, "bandersnatch.SW", tier, 4, Doc::Cofactor);
     te_rels::<ark_ed_on_bls12_381::JubjubConfig>(&mut out, "ed_on_bls12_381", tier, 2);
     te_rels::<ark_ed_on_bls12_381_bandersnatch::BandersnatchConfig>(&mut out, "bandersnatch", tier, 2);
